@@ -521,7 +521,7 @@ func init() {
 	copies := []string{"(*graph.DenseGraph).Copy", "(*graph.DenseGraph).InducedSubgraph", "(graph.SparseGraph).Copy", "(graph.SparseGraph).InducedSubgraph"}
 	register(&propDef{
 		id:          "C05",
-		explanation: "Decides three structural clauses of the editable graphs: COUPLE (in every function of package graph that directly mutates adjacency storage reached from a parameter, every path through the mutation also writes NumberOfEdges and DegreeSequence of that graph; AddEdge/RemoveEdge of both representations update the count once, each endpoint's degree once, with the sign of the adjacency change), FRESH/PURE (Copy and InducedSubgraph of both representations return memory that reaches neither receiver nor argument, and write nothing reachable from them), EDGEBYTE (a byte read from an existing graph's adjacency storage is only ever tested against zero, never used numerically, since any non-zero byte is an edge), ROWS (every neighbour list stored into a SparseGraph table owns its backing array: no window into an array shared with other rows), MAKECAP (where an edit method allocates with a capacity computed separately from the length - a growth policy - length <= capacity is proved), REGROW (storage that an edit method grows back in place into spare capacity - a slice expression guarded by a cap test - is visibly initialised up to its new length by a sweep, copy or clear: the spare capacity holds whatever an earlier RemoveVertex/RemoveEdge left there), ROWDEG (where SparseGraph.AddVertex appends a row to Neighbourhoods and a number to DegreeSequence, the number is proved equal to the length of that row: a degree taken from the raw argument disagrees with the de-duplicated row), TRI (every element index into DenseGraph.Edges in graph_dense.go is a lower-triangle cell J(J-1)/2+I with 0<=I<J proved by E-PROVE where the operands are locally controlled, a running index over a J/I nest, or a linear sweep). Does not decide agreement with the adjacency-set model under arbitrary histories.",
+		explanation: "Decides three structural clauses of the editable graphs: COUPLE (in every function of package graph that directly mutates adjacency storage reached from a parameter, every path through the mutation also writes NumberOfEdges and DegreeSequence of that graph; AddEdge/RemoveEdge of both representations update the count once, each endpoint's degree once, with the sign of the adjacency change), FRESH/PURE (Copy and InducedSubgraph of both representations return memory that reaches neither receiver nor argument, and write nothing reachable from them), EDGEBYTE (a byte read from an existing graph's adjacency storage is only ever tested against zero, never used numerically, since any non-zero byte is an edge), ROWS (every neighbour list stored into a SparseGraph table owns its backing array: no window into an array shared with other rows), MAKECAP (where an edit method allocates with a capacity computed separately from the length - a growth policy - length <= capacity is proved), REGROW (storage that an edit method grows back in place into spare capacity - a slice expression guarded by a cap test - is visibly initialised up to its new length by a sweep, copy or clear: the spare capacity holds whatever an earlier RemoveVertex/RemoveEdge left there), ROWDEG (where SparseGraph.AddVertex appends a row to Neighbourhoods and a number to DegreeSequence, the number is proved equal to the length of that row: a degree taken from the raw argument disagrees with the de-duplicated row), MAKEAPPEND (no edit method appends the old storage to a slice freshly made with a non-zero length that nothing filled in - make([]byte, size, 2*size) where make([]byte, 0, 2*size) is meant: the adjacency reads as all zero), TRI (every element index into DenseGraph.Edges in graph_dense.go is a lower-triangle cell J(J-1)/2+I with 0<=I<J proved by E-PROVE where the operands are locally controlled, a running index over a J/I nest, or a linear sweep). Does not decide agreement with the adjacency-set model under arbitrary histories.",
 		notDecided:  []string{"that observers agree with an adjacency-set model after every edit history (e.g. the compaction arithmetic of dense RemoveVertex, duplicate neighbours passed to AddVertex)", "dense/sparse agreement", "InducedSubgraph(V) maps vertex i to V[i]"},
 		assumptions: []string{"vertex numbers passed as parameters are non-negative (callers' contract)", "neighbour lists / codes loaded from memory satisfy their range preconditions (recorded in the evidence, not judged)"},
 		run: func(c *Ctx, tier string) []*RuleResult {
@@ -542,7 +542,8 @@ func init() {
 			// capacity than length: make panics for exactly those sizes
 			mcap := ruleMakeCapAny(c, filesOf(c, "graph.NewDense", "graph.NewSparse", "T:graph.DenseGraph", "T:graph.SparseGraph"))
 			rd := ruleRowDeg(c, "graph", "SparseGraph", "Neighbourhoods", "DegreeSequence")
-			return []*RuleResult{cp, fr, tri, ruleRows(c), ruleEdgeByte(c, "graph"), ruleRegrow(c, "graph"), mcap, rd}
+			ma := ruleMakeAppend(c, filesOf(c, "graph.NewDense", "graph.NewSparse", "T:graph.DenseGraph", "T:graph.SparseGraph"))
+			return []*RuleResult{cp, fr, tri, ruleRows(c), ruleEdgeByte(c, "graph"), ruleRegrow(c, "graph"), mcap, rd, ma}
 		},
 		controls: func(ctl *Ctx) []*RuleResult {
 			cp := ruleCouple(ctl, map[string]bool{"ctl/graph": true})
@@ -553,7 +554,7 @@ func init() {
 			freshResult(ctl, fr, ctl.Fn("(*graph.DenseGraph).GoodCopy"), 0, nil, nil, "is a deep copy")
 			tri := ruleTri(ctl, func(string) bool { return true }, "TRI")
 			lit := ruleLiteral(ctl)
-			return []*RuleResult{cp, es, fr, tri, lit, ruleRows(ctl), ruleEdgeByte(ctl, "graph"), ruleRegrow(ctl, "graph"), ruleRowDeg(ctl, "rowctl", "SparseGraph", "Neighbourhoods", "DegreeSequence")}
+			return []*RuleResult{cp, es, fr, tri, lit, ruleRows(ctl), ruleEdgeByte(ctl, "graph"), ruleRegrow(ctl, "graph"), ruleRowDeg(ctl, "rowctl", "SparseGraph", "Neighbourhoods", "DegreeSequence"), ruleMakeAppend(ctl, func(f string) bool { return filepath.Base(f) == "partctl.go" })}
 		},
 	})
 	register(&propDef{
